@@ -169,9 +169,13 @@ Proof.
   - reflexivity.
   - destruct ((0 <=? x) && (x <? 100)) eqn:E; inversion H; subst. exact E.
   - destruct ((0 <=? x) && (x <? 100)) eqn:E; [inversion H; subst; exact E|].
-    destruct ((100 <=? x) && (x <? 200)) eqn:E2; inversion H; subst.
-    apply andb_true_iff in E2. destruct E2 as [A B]. apply Z.leb_le in A. apply Z.ltb_lt in B.
-    apply andb_true_iff. split; [apply Z.leb_le|apply Z.ltb_lt]; auto with zarith.
+    destruct ((100 <=? x) && (x <? 200)) eqn:E2.
+    + inversion H; subst.
+      apply andb_true_iff in E2. destruct E2 as [A B]. apply Z.leb_le in A. apply Z.ltb_lt in B.
+      apply andb_true_iff. split; [apply Z.leb_le|apply Z.ltb_lt]; auto with zarith.
+    + destruct ((300 <=? x) && (x <? 400)) eqn:E3; inversion H; subst.
+      apply andb_true_iff in E3. destruct E3 as [A B]. apply Z.leb_le in A. apply Z.ltb_lt in B.
+      apply andb_true_iff. split; [apply Z.leb_le|apply Z.ltb_lt]; auto with zarith.
   - destruct ((0 <=? x) && (x <? 90)) eqn:E; inversion H; subst.
     apply andb_true_iff in E. destruct E as [A B]. apply Z.leb_le in A. apply Z.ltb_lt in B.
     apply andb_true_iff. split; [apply Z.leb_le|apply Z.ltb_lt]; auto with zarith.
